@@ -210,6 +210,37 @@ pub fn salts(ctx: &Ctx, rep: &mut Report) {
         all.extend(retry);
         check_history("everything together (incl. retry path)", &all, rep);
     }
+    // message-size classes signed back to back in one thread: equal lengths in a row (same and
+    // different content), across keys and variants, from empty to 200 kB (buffers kept between
+    // calls, keyed by length, show up here)
+    let (keys5, _) = pool::keys::<F512>(ctx.seed, "c08", 2);
+    let (keys6, _) = pool::keys::<F1024>(ctx.seed, "c08", 1);
+    if keys5.len() == 2 && keys6.len() == 1 {
+        let mut sized: Vec<SaltRec> = vec![];
+        vh::set_sign_rng(None);
+        let lens = [0usize, 1, 95, 4096, 65495, 65496, 70000, 200_000];
+        for round in 0..ctx.sz(2, 12) {
+            for &l in &lens {
+                let m1: Vec<u8> = (0..l).map(|i| (i * 31 + round) as u8).collect();
+                let m2: Vec<u8> = (0..l).map(|i| (i * 17 + 5 + round) as u8).collect();
+                let calls: Vec<(&Vec<u8>, u8)> = vec![(&m1, 0), (&m1, 0), (&m2, 0), (&m2, 1), (&m1, 2), (&m2, 2), (&m1, 0)];
+                for (ci, (m, which)) in calls.iter().enumerate() {
+                    let b = match which {
+                        0 => monitored(|| F512::sig_to_bytes(&F512::sign(m, &keys5[0].sk))),
+                        1 => monitored(|| F512::sig_to_bytes(&F512::sign(m, &keys5[1].sk))),
+                        _ => monitored(|| F1024::sig_to_bytes(&F1024::sign(m, &keys6[0].sk))),
+                    };
+                    if let Ok(b) = b {
+                        sized.push(SaltRec { salt: b[1..41].to_vec(), sig_hash: crate::util::hash64(&b), ctx: format!("message of {} bytes, call {} of the equal-length sequence (key/variant {})", l, ci, which) });
+                    }
+                }
+            }
+        }
+        rep.count("signatures_in_equal_length_sequences", sized.len() as u64);
+        check_history("equal-length message sequences (0 B .. 200 kB) in one thread", &sized, rep);
+        rep.nontrivial_s("history|equal-length-sequences");
+        all.extend(sized);
+    }
     // back-to-back in one thread
     let (keys, _) = pool::keys::<F512>(ctx.seed, "c08", 1);
     if let Some(k) = keys.first() {
